@@ -29,7 +29,8 @@ def enabled(events, maxnest, rich=True, comments=True, flow=True, tests=True, cl
         if flow:
             out += [{"k": "if", "doc": d} for d in docs] + [{"k": "foreach", "doc": 0}]
             if rich:
-                out += [{"k": "if", "doc": 1, "args": ["NOT", ["A", "AND", "B"], "OR", "C"]}]
+                out += [{"k": "if", "doc": 1, "args": ["NOT", ["A", "AND", "B"], "OR", "C"]},
+                        {"k": "if", "doc": 1, "args": ["A", "AND", ["B", "OR", ["C", "AND", "NOT", "D"]], ["E"]]}]
         if classes:
             out += [{"k": "cpp_class", "doc": d, "bases": ["Base"] if d else []} for d in docs]
         if tests:
